@@ -29,6 +29,9 @@ type recvProcOpt struct {
 	Notify   bool   `json:"notify,omitempty"`
 	MetaOnly string `json:"metaonly,omitempty"` // "" | none | all | files
 	Differ   int    `json:"differ,omitempty"`
+	// TmpSeed != 0 pins the writer's temporary-name generator (hook
+	// fsutil.VerifSeedTempNames, build tag verif)
+	TmpSeed uint32 `json:"tmpseed,omitempty"`
 }
 
 type recvProcResult struct {
@@ -47,6 +50,9 @@ func init() {
 		ctx, cancel := context.WithCancel(context.Background())
 		defer cancel()
 		s := util.NewProtoStream(ctx, os.Stdin, os.Stdout)
+		if o.TmpSeed != 0 {
+			fsutil.VerifSeedTempNames(o.TmpSeed)
+		}
 		ropt := fsutil.ReceiveOpt{Merge: o.Merge, Differ: fsutil.DiffType(o.Differ)}
 		nrec := newNotifyRec()
 		if o.Notify {
